@@ -264,6 +264,93 @@ func oracleC03(r *OpRun) {
 			r.e.Viol("C03", "Q3", "wrong-queue", "task for binding %s of %s (%s) was created for queue %q, the binding names %q", a.Binding, a.Hook, a.Ctx, a.Queue, want)
 		}
 	}
+	// Q4 independence: an event task created for an idle queue (nothing running, no back-off pending,
+	// nothing queued before it) starts within a second of simulated time, whatever other queues do
+	type span struct {
+		from, to time.Duration
+		failed   bool
+	}
+	busy := map[string][]span{}
+	firstExec := map[string]*Exec{}
+	for _, x := range r.o.Execs {
+		if isWebhookExec(x) {
+			continue
+		}
+		q := x.QueueSeen
+		if q == "" {
+			q = r.queueOf(x)
+		}
+		to := x.End
+		if x.EndSeq == 0 {
+			to = 1 << 62
+		}
+		busy[q] = append(busy[q], span{x.Start, to, x.Fail})
+		for _, c := range x.Ctxs {
+			if c.Type == "Event" && c.Obj != nil && c.Obj.HasObject {
+				id := x.Hook + "|" + c.Binding + "/Event/" + c.WatchEvent + "/" + c.Obj.NS + "/" + c.Obj.Name + "@" + fmt.Sprint(c.Obj.RV)
+				if firstExec[id] == nil {
+					firstExec[id] = x
+				}
+			}
+		}
+	}
+	startupEnd := time.Duration(0)
+	for _, x := range r.o.Execs {
+		for _, c := range x.Ctxs {
+			if (c.Type == "Synchronization" || (c.Binding == "onStartup" && c.Type == "")) && x.End > startupEnd {
+				startupEnd = x.End
+			}
+		}
+	}
+	if !r.quiet {
+		startupEnd = 1 << 62
+	}
+	lastArrival := map[string]time.Duration{}
+	for _, a := range r.o.Arrivals {
+		if a.Queue == "-" {
+			continue
+		}
+		prevArr, hadPrev := lastArrival[a.Queue]
+		lastArrival[a.Queue] = a.At
+		if a.Kind != "kube" || !strings.Contains(a.Ctx, "@") {
+			continue
+		}
+		h := r.hookSpec(a.Hook)
+		if h == nil || h.Extra["settings"] != nil {
+			continue
+		}
+		x := firstExec[a.Hook+"|"+a.Ctx]
+		if x == nil {
+			continue
+		}
+		idle := true
+		for _, sp := range busy[a.Queue] {
+			// running at the arrival, or failed/ended within the back-off horizon before it
+			if sp.from <= a.At && a.At <= sp.to+100*time.Millisecond {
+				idle = false
+			}
+			if sp.failed && sp.to <= a.At && a.At-sp.to < 40*time.Second {
+				idle = false
+			}
+		}
+		// a task queued shortly before may still be waiting for its turn
+		if hadPrev && a.At-prevArr < 2*time.Second {
+			idle = false
+		}
+		if a.At < 2*time.Second {
+			idle = false // start-up: the queue may not be started yet
+		}
+		if a.Queue == "main" {
+			idle = false // main also works through start-up tasks, which may fail and back off without running a hook
+		}
+		_ = startupEnd
+		if idle {
+			simrt.Count("probe:arrival-at-idle-queue")
+			if w := x.Start - a.At; w > time.Second+x.Dur {
+				r.e.Viol("C03", "Q4", "idle-queue-delayed", "queue %q was idle when the task for %s (%s) was created at %v; its execution #%d started only at %v", a.Queue, a.Hook, a.Ctx, a.At, x.N, x.Start)
+			}
+		}
+	}
 	// Q3 order: per queue, Event contexts are first executed in the order their tasks were created
 	if r.quiet {
 		arrived := map[string][]string{}
